@@ -25,11 +25,13 @@ import MithrilModel.Handlers.C09
 
 ## Repair (proved here)
 
-`C09_stm_sound_relativised` / `C09_stm_root_injective_relativised`: the hash hypothesis is relativised to the
-FINITE set of byte strings hashed while the committed tree is built (`TreeInput`: the padding pre-image `[0]`,
-the leaf pre-images, the 64-byte node pre-images of the tree's positions `InTree`): "no second pre-image of a
-tree input", returned as an explicit disjunct. `sat_relativised` exhibits a concrete `H`, tree and ACCEPTED
-batch proof for which the hypotheses hold and the collision disjuncts are false.
+`C09_stm_sound_witness` / `C09_stm_root_injective_witness`: the collision disjunct NAMES the pair: `y` out of
+the finite log of the committed tree's computation (`treeLog`: the padding pre-image `[0]`, the leaf
+pre-images, the 64-byte node pre-images), `x` out of the finite log of the verifier's run (`verifierLog`: the
+claimed leaves and the concatenations hashed by the level loop, `levelLog_faithful`), resp. of the other
+tree's computation. Internally the hypothesis is `NoCollisionBetween H U X` (injectivity relativised to the
+two logs). `sat_witness` exhibits a concrete `H`, tree and ACCEPTED batch proof for which every hypothesis
+holds and the collision disjunct is false.
 -/
 namespace Vacuity.C09
 open StmBatch StmTree _root_.C09
@@ -92,7 +94,7 @@ theorem tri_lt {s s' : Nat} (h : s < s') : tri s + s + 1 ≤ tri s' := by
   | zero => omega
   | succ n ih =>
     by_cases hn : s = n
-    · subst hn; rw [tri_succ]; omega
+    · subst hn; rw [tri_succ]
     · have := ih (by omega); rw [tri_succ]; omega
 
 theorem pairM_eq (a b : Nat) : pairM a b = tri (a + b) + b + 1000 := rfl
@@ -165,7 +167,7 @@ example : ExprTree.Verified pairM (MapLink.toN mapP) ∧ ExprTree.Contains (MapL
   ⟨MapLink.verify_verified pairM mapP (by decide +kernel), MapLink.contains_contains mapP 10 (by decide +kernel),
     by rw [MapLink.toN_root]; decide +kernel⟩
 
-/-! ## repair of C09(a): the hash hypothesis relativised to the inputs of the committed tree -/
+/-! ## repair of C09(a): an explicit witness pair drawn from the two computations' hash inputs -/
 
 /-- the (height, position) pairs of the committed tree of height `hTop`, from the root down -/
 inductive InTree (hTop : Nat) : Nat → Nat → Prop where
@@ -179,38 +181,118 @@ theorem InTree.bound {hTop h p : Nat} (t : InTree hTop h p) : h ≤ hTop ∧ (h 
   | left _ ih => exact ⟨by omega, fun e => by omega⟩
   | right _ ih => exact ⟨by omega, fun e => by omega⟩
 
-/-- positions of height `h` lie in `[2^(hTop-h) - 1, 2^(hTop-h+1) - 2]`: the set is finite -/
-theorem InTree.pos_lt {hTop h p : Nat} (t : InTree hTop h p) : p + 2 ≤ 2 ^ (hTop - h + 1) := by
-  induction t with
-  | root => simp
-  | @left h p t ih =>
-    have hb := t.bound.1
-    have : hTop - h + 1 = (hTop - (h + 1) + 1) + 1 := by omega
-    rw [this, Nat.pow_succ]; omega
-  | @right h p t ih =>
-    have hb := t.bound.1
-    have : hTop - h + 1 = (hTop - (h + 1) + 1) + 1 := by omega
-    rw [this, Nat.pow_succ]; omega
+/-- **the log of the committed tree's computation**: the byte strings given to `H` while `sub … h p` is
+evaluated — leaf pre-images at height 0, the concatenated children at every inner position -/
+def nodeLog (H : Bytes → Bytes) (leaves : List Bytes) (Z : Bytes) (off : Nat) : Nat → Nat → List Bytes
+  | 0, p => match leaves[p - off]? with
+    | some x => [x]
+    | none => []
+  | h + 1, p => (sub H leaves Z off h (2 * p + 1) ++ sub H leaves Z off h (2 * p + 2)) ::
+      (nodeLog H leaves Z off h (2 * p + 1) ++ nodeLog H leaves Z off h (2 * p + 2))
+
+/-- … of the whole tree: the padding pre-image `[0]` and the log of the root -/
+def treeLog (H : Bytes → Bytes) (leaves : List Bytes) (off hTop : Nat) : List Bytes :=
+  [0] :: nodeLog H leaves (H [0]) off hTop 0
+
+/-- the log of `MerkleTree::new(leaves)` (`StmTree.treeRoot`) -/
+abbrev treeLogOf (H : Bytes → Bytes) (leaves : List Bytes) : List Bytes :=
+  treeLog H leaves (nextPow2 leaves.length - 1) (height leaves.length)
+
+/-- **the log of one `level` call of the verifier**: the concatenations it hashes, in order -/
+def levelLog (nr : Nat) (Z : Bytes) : List (Nat × Bytes) → List Bytes → List Bytes
+  | [], _ => []
+  | [(p, h)], vs =>
+    if p = 0 then []
+    else if p % 2 = 0 then
+      match vs with
+      | [] => []
+      | v :: _ => [v ++ h]
+    else if p + 1 < nr then
+      match vs with
+      | [] => []
+      | v :: _ => [h ++ v]
+    else [h ++ Z]
+  | (p, h) :: (p2, h2) :: rest, vs =>
+    if p = 0 then []
+    else if p % 2 = 0 then
+      match vs with
+      | [] => []
+      | v :: vs' => (v ++ h) :: levelLog nr Z ((p2, h2) :: rest) vs'
+    else if p2 = p + 1 then (h ++ h2) :: levelLog nr Z rest vs
+    else if p + 1 < nr then
+      match vs with
+      | [] => []
+      | v :: vs' => (h ++ v) :: levelLog nr Z ((p2, h2) :: rest) vs'
+    else (h ++ Z) :: levelLog nr Z ((p2, h2) :: rest) vs
+
+/-- … of the level loop -/
+def runLog (H : Bytes → Bytes) (nr : Nat) (Z : Bytes) : Nat → List (Nat × Bytes) → List Bytes → List Bytes
+  | _, [], _ => []
+  | 0, _ :: _, _ => []
+  | fuel + 1, (p, h) :: es, vs =>
+    if p = 0 then []
+    else match level H nr Z ((p, h) :: es) vs with
+      | none => []
+      | some (es', vs') => levelLog nr Z ((p, h) :: es) vs ++ runLog H nr Z fuel es' vs'
+
+/-- **the log of `verifyBatch`**: the claimed leaf pre-images and everything the level loop hashes -/
+def verifierLog (H : Bytes → Bytes) (nr : Nat) (claims values : List Bytes) (indices : List Nat) : List Bytes :=
+  (indices.zip claims).map (·.2) ++
+    runLog H (nr + nextPow2 nr - 1) (H [0]) 65
+      ((indices.zip claims).map fun p => (p.1 + (nextPow2 nr - 1), H p.2)) values
 
 variable {H : Bytes → Bytes}
 
-/-- every byte string that is hashed when the tree over `leaves` is built: the padding pre-image `[0]`, the
-leaf pre-images, the concatenated children of every inner position of the tree. A finite set: at most
-`1 + |leaves| + 2^hTop - 1` strings. -/
-def TreeInput (H : Bytes → Bytes) (leaves : List Bytes) (off hTop : Nat) (y : Bytes) : Prop :=
-  y = [0] ∨ y ∈ leaves ∨
-    ∃ h p, InTree hTop (h + 1) p ∧
-      y = sub H leaves (H [0]) off h (2 * p + 1) ++ sub H leaves (H [0]) off h (2 * p + 2)
+/-- `levelLog` IS what `level` hashes: the produced values are the hashes of the log, in order -/
+theorem levelLog_faithful (nr : Nat) (Z : Bytes) :
+    ∀ (es : List (Nat × Bytes)) (vs : List Bytes) (es' : List (Nat × Bytes)) (vs' : List Bytes),
+      level H nr Z es vs = some (es', vs') → es'.map (·.2) = (levelLog nr Z es vs).map H := by
+  intro es vs
+  fun_induction level H nr Z es vs <;> intro es' vs' hl
+  all_goals first
+    | (simp at hl; done)
+    | skip
+  all_goals simp only [Option.some.injEq, Prod.mk.injEq] at hl
+  all_goals obtain ⟨rfl, rfl⟩ := hl
+  case case1 => simp [levelLog]
+  case case4 => rename_i hp0 hpar v vst; simp [levelLog, hp0, hpar]
+  case case6 => rename_i hp0 hpar hlt v vst; simp [levelLog, hp0, hpar, hlt]
+  case case7 => rename_i hp0 hpar hlt; simp [levelLog, hp0, hpar, hlt]
+  case case11 => rename_i hp0 hpar v vst r vs2 hx ih; simp [levelLog, hp0, hpar, ih r vs2 hx]
+  case case13 => rename_i hp0 hpar r vs2 hx ih; simp [levelLog, hp0, hpar, ih r vs2 hx]
+  case case16 => rename_i hp0 hpar hne hlt v vst r vs2 hx ih; simp [levelLog, hp0, hpar, hne, hlt, ih r vs2 hx]
+  case case18 => rename_i hp0 hpar hne hlt r vs2 hx ih; simp [levelLog, hp0, hpar, hne, hlt, ih r vs2 hx]
 
-/-- second-pre-image freedom on a set of inputs: the relativised form of `hinj` -/
-def NoSecondPreimage (H : Bytes → Bytes) (U : Bytes → Prop) : Prop := ∀ y, U y → ∀ x, H x = H y → x = y
+/-- the relativised form of `hinj`: no collision BETWEEN a string `y` hashed for the committed tree and a
+string `x` hashed by the verifier (resp. for the other tree) -/
+def NoCollisionBetween (H : Bytes → Bytes) (U X : List Bytes) : Prop := ∀ y ∈ U, ∀ x ∈ X, H x = H y → x = y
 
-theorem split_node' {leaves : List Bytes} {off hTop : Nat}
-    (h2 : NoSecondPreimage H (TreeInput H leaves off hTop)) (hlen : ∀ x, (H x).length = 32)
-    (h q : Nat) (hq : InTree hTop (h + 1) q) {a b : Bytes} (ha : a.length = 32)
+theorem nodeLog_sub {leaves : List Bytes} {Z : Bytes} {off hTop h p : Nat} (t : InTree hTop h p) :
+    ∀ y ∈ nodeLog H leaves Z off h p, y ∈ nodeLog H leaves Z off hTop 0 := by
+  induction t with
+  | root => exact fun y hy => hy
+  | left _ ih => exact fun y hy => ih y (by simp [nodeLog, hy])
+  | right _ ih => exact fun y hy => ih y (by simp [nodeLog, hy])
+
+theorem mem_zero {leaves : List Bytes} {off hTop : Nat} : ([0] : Bytes) ∈ treeLog H leaves off hTop := by
+  simp [treeLog]
+
+theorem mem_node {leaves : List Bytes} {off hTop h p : Nat} (t : InTree hTop (h + 1) p) :
+    sub H leaves (H [0]) off h (2 * p + 1) ++ sub H leaves (H [0]) off h (2 * p + 2) ∈ treeLog H leaves off hTop :=
+  List.mem_cons_of_mem _ (nodeLog_sub t _ (by simp [nodeLog]))
+
+theorem mem_leaf {leaves : List Bytes} {off hTop p : Nat} (t : InTree hTop 0 p) {l : Bytes}
+    (hl : leaves[p - off]? = some l) : l ∈ treeLog H leaves off hTop :=
+  List.mem_cons_of_mem _ (nodeLog_sub t _ (by simp [nodeLog, hl]))
+
+section verifier
+variable {leaves : List Bytes} {off hTop : Nat} {X : List Bytes}
+
+theorem split_node' (h2 : NoCollisionBetween H (treeLog H leaves off hTop) X) (hlen : ∀ x, (H x).length = 32)
+    (h q : Nat) (hq : InTree hTop (h + 1) q) {a b : Bytes} (hX : a ++ b ∈ X) (ha : a.length = 32)
     (heq : H (a ++ b) = sub H leaves (H [0]) off (h + 1) q) :
     a = sub H leaves (H [0]) off h (2 * q + 1) ∧ b = sub H leaves (H [0]) off h (2 * q + 2) := by
-  have h1 := h2 _ (Or.inr (Or.inr ⟨h, q, hq, rfl⟩)) (a ++ b) (by simpa [sub] using heq)
+  have h1 := h2 _ (mem_node hq) (a ++ b) hX (by simpa [sub] using heq)
   have hl : a.length = (sub H leaves (H [0]) off h (2 * q + 1)).length := by
     rw [ha, sub_len hlen (hlen [0])]
   exact List.append_inj h1 hl
@@ -219,13 +301,12 @@ theorem split_node' {leaves : List Bytes} {off hTop : Nat}
 def GoodAt (H : Bytes → Bytes) (leaves : List Bytes) (off hTop h : Nat) (e : Nat × Bytes) : Prop :=
   e.2 = sub H leaves (H [0]) off h e.1 ∧ InTree hTop h e.1
 
-theorem good_odd {leaves : List Bytes} {off hTop : Nat}
-    (h2 : NoSecondPreimage H (TreeInput H leaves off hTop)) (hlen : ∀ x, (H x).length = 32)
-    (h0 p : Nat) (hp0 : p ≠ 0) (hpar : ¬ p % 2 = 0) {a b : Bytes} (ha : a.length = 32)
+theorem good_odd (h2 : NoCollisionBetween H (treeLog H leaves off hTop) X) (hlen : ∀ x, (H x).length = 32)
+    (h0 p : Nat) (hp0 : p ≠ 0) (hpar : ¬ p % 2 = 0) {a b : Bytes} (hX : a ++ b ∈ X) (ha : a.length = 32)
     (hg : GoodAt H leaves off hTop (h0 + 1) (parent p, H (a ++ b))) :
     GoodAt H leaves off hTop h0 (p, a) ∧ GoodAt H leaves off hTop h0 (p + 1, b) := by
   obtain ⟨hv, ht⟩ := hg
-  obtain ⟨e1, e2⟩ := split_node' h2 hlen h0 (parent p) ht ha hv
+  obtain ⟨e1, e2⟩ := split_node' h2 hlen h0 (parent p) ht hX ha hv
   have hp := parent_odd hp0 hpar
   have hp1 : 2 * parent p + 2 = p + 1 := by omega
   refine ⟨⟨?_, ?_⟩, ⟨?_, ?_⟩⟩
@@ -234,26 +315,25 @@ theorem good_odd {leaves : List Bytes} {off hTop : Nat}
   · simpa [hp1] using e2
   · simpa [hp1] using InTree.right ht
 
-theorem good_even {leaves : List Bytes} {off hTop : Nat}
-    (h2 : NoSecondPreimage H (TreeInput H leaves off hTop)) (hlen : ∀ x, (H x).length = 32)
-    (h0 p : Nat) (hp0 : p ≠ 0) (hpar : p % 2 = 0) {a b : Bytes} (ha : a.length = 32)
+theorem good_even (h2 : NoCollisionBetween H (treeLog H leaves off hTop) X) (hlen : ∀ x, (H x).length = 32)
+    (h0 p : Nat) (hp0 : p ≠ 0) (hpar : p % 2 = 0) {a b : Bytes} (hX : a ++ b ∈ X) (ha : a.length = 32)
     (hg : GoodAt H leaves off hTop (h0 + 1) (parent p, H (a ++ b))) :
     GoodAt H leaves off hTop h0 (p, b) := by
   obtain ⟨hv, ht⟩ := hg
-  obtain ⟨_, e2⟩ := split_node' h2 hlen h0 (parent p) ht ha hv
+  obtain ⟨_, e2⟩ := split_node' h2 hlen h0 (parent p) ht hX ha hv
   have hp := parent_even hp0 hpar
   exact ⟨by simpa [hp] using e2, by simpa [hp] using InTree.right ht⟩
 
-theorem level_sound' {leaves : List Bytes} {off hTop : Nat}
-    (h2 : NoSecondPreimage H (TreeInput H leaves off hTop)) (hlen : ∀ x, (H x).length = 32)
+theorem level_sound' (h2 : NoCollisionBetween H (treeLog H leaves off hTop) X) (hlen : ∀ x, (H x).length = 32)
     (nr h0 : Nat) :
     ∀ (es : List (Nat × Bytes)) (vs : List Bytes) (es' : List (Nat × Bytes)) (vs' : List Bytes),
       level H nr (H [0]) es vs = some (es', vs') →
+      (∀ x ∈ levelLog nr (H [0]) es vs, x ∈ X) →
       (∀ e ∈ es, e.2.length = 32) → (∀ v ∈ vs, v.length = 32) →
       (∀ e ∈ es', GoodAt H leaves off hTop (h0 + 1) e) →
       (∀ e ∈ es, GoodAt H leaves off hTop h0 e) := by
   intro es vs
-  fun_induction level H nr (H [0]) es vs <;> intro es' vs' hl hes hvs hgood
+  fun_induction level H nr (H [0]) es vs <;> intro es' vs' hl hX hes hvs hgood
   all_goals first
     | (simp at hl; done)
     | skip
@@ -262,26 +342,31 @@ theorem level_sound' {leaves : List Bytes} {off hTop : Nat}
     rename_i p h hp0 hpar v vst
     simp only [Option.some.injEq, Prod.mk.injEq] at hl
     obtain ⟨rfl, rfl⟩ := hl
-    have hb := good_even h2 hlen h0 p hp0 hpar (hvs v (by simp)) (hgood (parent p, H (v ++ h)) (by simp))
+    have hb := good_even h2 hlen h0 p hp0 hpar (hX (v ++ h) (by simp [levelLog, hp0, hpar])) (hvs v (by simp))
+      (hgood (parent p, H (v ++ h)) (by simp))
     intro e he; simp at he; subst he; exact hb
   case case6 =>
     rename_i p h hp0 hpar hlt v vst
     simp only [Option.some.injEq, Prod.mk.injEq] at hl
     obtain ⟨rfl, rfl⟩ := hl
-    have hb := (good_odd h2 hlen h0 p hp0 hpar (hes (p, h) (by simp)) (hgood (parent p, H (h ++ v)) (by simp))).1
+    have hb := (good_odd h2 hlen h0 p hp0 hpar (hX (h ++ v) (by simp [levelLog, hp0, hpar, hlt]))
+      (hes (p, h) (by simp)) (hgood (parent p, H (h ++ v)) (by simp))).1
     intro e he; simp at he; subst he; exact hb
   case case7 =>
     rename_i p h vs0 hp0 hpar hlt
     simp only [Option.some.injEq, Prod.mk.injEq] at hl
     obtain ⟨rfl, rfl⟩ := hl
-    have hb := (good_odd h2 hlen h0 p hp0 hpar (hes (p, h) (by simp)) (hgood (parent p, H (h ++ H [0])) (by simp))).1
+    have hb := (good_odd h2 hlen h0 p hp0 hpar (hX (h ++ H [0]) (by simp [levelLog, hp0, hpar, hlt]))
+      (hes (p, h) (by simp)) (hgood (parent p, H (h ++ H [0])) (by simp))).1
     intro e he; simp at he; subst he; exact hb
   case case11 =>
     rename_i p h p2 h2' rest hp0 hpar v vst r vs2 hx ih
     simp only [Option.some.injEq, Prod.mk.injEq] at hl
     obtain ⟨rfl, rfl⟩ := hl
-    have hb := good_even h2 hlen h0 p hp0 hpar (hvs v (by simp)) (hgood (parent p, H (v ++ h)) (by simp))
-    have ih1 := ih r vs2 hx (fun e he => hes e (List.mem_cons_of_mem _ he))
+    have hb := good_even h2 hlen h0 p hp0 hpar (hX (v ++ h) (by simp [levelLog, hp0, hpar])) (hvs v (by simp))
+      (hgood (parent p, H (v ++ h)) (by simp))
+    have ih1 := ih r vs2 hx (fun x hx' => hX x (by simp [levelLog, hp0, hpar, hx']))
+      (fun e he => hes e (List.mem_cons_of_mem _ he))
       (fun w hw => hvs w (List.mem_cons_of_mem _ hw)) (fun e he => hgood e (List.mem_cons_of_mem _ he))
     intro e he
     rcases List.mem_cons.mp he with rfl | he
@@ -291,8 +376,9 @@ theorem level_sound' {leaves : List Bytes} {off hTop : Nat}
     rename_i p h h2' rest vs0 hp0 hpar r vs2 hx ih
     simp only [Option.some.injEq, Prod.mk.injEq] at hl
     obtain ⟨rfl, rfl⟩ := hl
-    obtain ⟨ha, hb⟩ := good_odd h2 hlen h0 p hp0 hpar (hes (p, h) (by simp)) (hgood (parent p, H (h ++ h2')) (by simp))
-    have ih1 := ih r vs2 hx
+    obtain ⟨ha, hb⟩ := good_odd h2 hlen h0 p hp0 hpar (hX (h ++ h2') (by simp [levelLog, hp0, hpar]))
+      (hes (p, h) (by simp)) (hgood (parent p, H (h ++ h2')) (by simp))
+    have ih1 := ih r vs2 hx (fun x hx' => hX x (by simp [levelLog, hp0, hpar, hx']))
       (fun e he => hes e (List.mem_cons_of_mem _ (List.mem_cons_of_mem _ he)))
       hvs (fun e he => hgood e (List.mem_cons_of_mem _ he))
     intro e he
@@ -305,8 +391,10 @@ theorem level_sound' {leaves : List Bytes} {off hTop : Nat}
     rename_i p h p2 h2' rest hp0 hpar hne hlt v vst r vs2 hx ih
     simp only [Option.some.injEq, Prod.mk.injEq] at hl
     obtain ⟨rfl, rfl⟩ := hl
-    have ha := (good_odd h2 hlen h0 p hp0 hpar (hes (p, h) (by simp)) (hgood (parent p, H (h ++ v)) (by simp))).1
-    have ih1 := ih r vs2 hx (fun e he => hes e (List.mem_cons_of_mem _ he))
+    have ha := (good_odd h2 hlen h0 p hp0 hpar (hX (h ++ v) (by simp [levelLog, hp0, hpar, hne, hlt]))
+      (hes (p, h) (by simp)) (hgood (parent p, H (h ++ v)) (by simp))).1
+    have ih1 := ih r vs2 hx (fun x hx' => hX x (by simp [levelLog, hp0, hpar, hne, hlt, hx']))
+      (fun e he => hes e (List.mem_cons_of_mem _ he))
       (fun w hw => hvs w (List.mem_cons_of_mem _ hw)) (fun e he => hgood e (List.mem_cons_of_mem _ he))
     intro e he
     rcases List.mem_cons.mp he with rfl | he
@@ -316,42 +404,108 @@ theorem level_sound' {leaves : List Bytes} {off hTop : Nat}
     rename_i p h p2 h2' rest vs0 hp0 hpar hne hlt r vs2 hx ih
     simp only [Option.some.injEq, Prod.mk.injEq] at hl
     obtain ⟨rfl, rfl⟩ := hl
-    have ha := (good_odd h2 hlen h0 p hp0 hpar (hes (p, h) (by simp)) (hgood (parent p, H (h ++ H [0])) (by simp))).1
-    have ih1 := ih r vs2 hx (fun e he => hes e (List.mem_cons_of_mem _ he))
+    have ha := (good_odd h2 hlen h0 p hp0 hpar (hX (h ++ H [0]) (by simp [levelLog, hp0, hpar, hne, hlt]))
+      (hes (p, h) (by simp)) (hgood (parent p, H (h ++ H [0])) (by simp))).1
+    have ih1 := ih r vs2 hx (fun x hx' => hX x (by simp [levelLog, hp0, hpar, hne, hlt, hx']))
+      (fun e he => hes e (List.mem_cons_of_mem _ he))
       hvs (fun e he => hgood e (List.mem_cons_of_mem _ he))
     intro e he
     rcases List.mem_cons.mp he with rfl | he
     · exact ha
     · exact ih1 e he
 
-theorem node_ne_leaf' {leaves : List Bytes} {off hTop : Nat}
-    (h2 : NoSecondPreimage H (TreeInput H leaves off hTop))
-    (hleaf : ∀ l ∈ leaves, l.length = 104) (k : Nat) {x : Bytes} (hx : x.length = 64) :
-    H x ≠ leafVal H leaves (H [0]) k := by
+/-- every entry produced by one level is the hash of a 64-byte string OF THE LOG -/
+theorem level_out' (hlen : ∀ x, (H x).length = 32) {Z : Bytes} (hZ : Z.length = 32) (nr : Nat) :
+    ∀ (es : List (Nat × Bytes)) (vs : List Bytes) (es' : List (Nat × Bytes)) (vs' : List Bytes),
+      level H nr Z es vs = some (es', vs') →
+      (∀ e ∈ es, e.2.length = 32) → (∀ v ∈ vs, v.length = 32) →
+      ∀ e ∈ es', ∃ x ∈ levelLog nr Z es vs, e.2 = H x ∧ x.length = 64 := by
+  intro es vs es' vs' hl hes hvs e he
+  have hf := levelLog_faithful (H := H) nr Z es vs es' vs' hl
+  obtain ⟨x', hx', hx64⟩ := (level_out hlen hZ nr es vs es' vs' hl hes hvs).1 e he
+  -- e.2 is the image of a log entry at the same index
+  have : e.2 ∈ (levelLog nr Z es vs).map H := by rw [← hf]; exact List.mem_map.mpr ⟨e, he, rfl⟩
+  obtain ⟨x, hx, hxe⟩ := List.mem_map.mp this
+  refine ⟨x, hx, hxe.symm, ?_⟩
+  exact levelLog_len hZ nr es vs es' vs' hl hes hvs x hx
+where
+  levelLog_len {Z : Bytes} (hZ : Z.length = 32) (nr : Nat) :
+      ∀ (es : List (Nat × Bytes)) (vs : List Bytes) (es' : List (Nat × Bytes)) (vs' : List Bytes),
+        level H nr Z es vs = some (es', vs') →
+        (∀ e ∈ es, e.2.length = 32) → (∀ v ∈ vs, v.length = 32) →
+        ∀ x ∈ levelLog nr Z es vs, x.length = 64 := by
+    intro es vs
+    fun_induction level H nr Z es vs <;> intro es' vs' hl hes hvs
+    all_goals first
+      | (simp at hl; done)
+      | skip
+    case case1 => simp [levelLog]
+    case case4 =>
+      rename_i p h hp0 hpar v vst
+      intro x hx; simp [levelLog, hp0, hpar] at hx; subst hx
+      simp [hvs v (by simp), hes (p, h) (by simp)]
+    case case6 =>
+      rename_i p h hp0 hpar hlt v vst
+      intro x hx; simp [levelLog, hp0, hpar, hlt] at hx; subst hx
+      simp [hvs v (by simp), hes (p, h) (by simp)]
+    case case7 =>
+      rename_i p h vs0 hp0 hpar hlt
+      intro x hx; simp [levelLog, hp0, hpar, hlt] at hx; subst hx
+      simp [hZ, hes (p, h) (by simp)]
+    case case11 =>
+      rename_i p h p2 h2' rest hp0 hpar v vst r vs2 hx' ih
+      intro x hx; simp [levelLog, hp0, hpar] at hx
+      rcases hx with rfl | hx
+      · simp [hvs v (by simp), hes (p, h) (by simp)]
+      · exact ih r vs2 hx' (fun e he => hes e (List.mem_cons_of_mem _ he))
+          (fun w hw => hvs w (List.mem_cons_of_mem _ hw)) x hx
+    case case13 =>
+      rename_i p h h2' rest vs0 hp0 hpar r vs2 hx' ih
+      intro x hx; simp [levelLog, hp0, hpar] at hx
+      rcases hx with rfl | hx
+      · simp [hes (p, h) (by simp), hes (p + 1, h2') (by simp)]
+      · exact ih r vs2 hx' (fun e he => hes e (List.mem_cons_of_mem _ (List.mem_cons_of_mem _ he))) hvs x hx
+    case case16 =>
+      rename_i p h p2 h2' rest hp0 hpar hne hlt v vst r vs2 hx' ih
+      intro x hx; simp [levelLog, hp0, hpar, hne, hlt] at hx
+      rcases hx with rfl | hx
+      · simp [hvs v (by simp), hes (p, h) (by simp)]
+      · exact ih r vs2 hx' (fun e he => hes e (List.mem_cons_of_mem _ he))
+          (fun w hw => hvs w (List.mem_cons_of_mem _ hw)) x hx
+    case case18 =>
+      rename_i p h p2 h2' rest vs0 hp0 hpar hne hlt r vs2 hx' ih
+      intro x hx; simp [levelLog, hp0, hpar, hne, hlt] at hx
+      rcases hx with rfl | hx
+      · simp [hZ, hes (p, h) (by simp)]
+      · exact ih r vs2 hx' (fun e he => hes e (List.mem_cons_of_mem _ he)) hvs x hx
+
+theorem node_ne_leaf' (h2 : NoCollisionBetween H (treeLog H leaves off hTop) X)
+    (hleaf : ∀ l ∈ leaves, l.length = 104) (p : Nat) (hp : InTree hTop 0 p) {x : Bytes} (hX : x ∈ X)
+    (hx : x.length = 64) : H x ≠ leafVal H leaves (H [0]) (p - off) := by
   unfold leafVal
   split
   · rename_i l hl
     intro h
     have hl' : l ∈ leaves := List.mem_of_getElem? hl
-    have := h2 l (Or.inr (Or.inl hl')) x h
+    have := h2 l (mem_leaf hp hl) x hX h
     have := hleaf l hl'
     simp_all
   · intro h
-    have := h2 [0] (Or.inl rfl) x h
+    have := h2 [0] mem_zero x hX h
     simp_all
 
-theorem run_sound' {leaves : List Bytes} {off hTop : Nat}
-    (h2 : NoSecondPreimage H (TreeInput H leaves off hTop)) (hlen : ∀ x, (H x).length = 32)
+theorem run_sound' (h2 : NoCollisionBetween H (treeLog H leaves off hTop) X) (hlen : ∀ x, (H x).length = 32)
     (nr : Nat) (hleaf : ∀ l ∈ leaves, l.length = 104) :
     ∀ (fuel : Nat) (es : List (Nat × Bytes)) (vs : List Bytes),
       run H nr (H [0]) fuel es vs = some [(0, sub H leaves (H [0]) off hTop 0)] →
+      (∀ x ∈ runLog H nr (H [0]) fuel es vs, x ∈ X) →
       (∀ e ∈ es, e.2.length = 32) → (∀ v ∈ vs, v.length = 32) →
       ∃ t, t ≤ hTop ∧ ∀ e ∈ es, GoodAt H leaves off hTop (hTop - t) e := by
   have hZ : (H [0]).length = 32 := hlen _
   intro fuel
   induction fuel with
   | zero =>
-    intro es vs hrun hes hvs
+    intro es vs hrun _ hes hvs
     match es, hrun with
     | (p, h) :: es, hrun =>
       simp only [run] at hrun
@@ -362,47 +516,55 @@ theorem run_sound' {leaves : List Bytes} {off hTop : Nat}
         exact ⟨by simp, by simpa using InTree.root⟩
       · simp at hrun
   | succ fuel ih =>
-    intro es vs hrun hes hvs
-    match es, hrun with
-    | (p, h) :: es, hrun =>
+    intro es vs hrun hX hes hvs
+    match es, hrun, hX with
+    | (p, h) :: es, hrun, hX =>
       simp only [run] at hrun
       split at hrun
       · simp only [Option.some.injEq] at hrun
         refine ⟨0, Nat.zero_le _, ?_⟩
         intro e he; rw [hrun] at he; simp at he; subst he
         exact ⟨by simp, by simpa using InTree.root⟩
-      · split at hrun
+      · rename_i hp0
+        split at hrun
         · simp at hrun
         · rename_i es' vs' hlev
+          have hXl : ∀ x ∈ levelLog nr (H [0]) ((p, h) :: es) vs, x ∈ X := by
+            intro x hx; apply hX; simp [runLog, hp0, hlev, hx]
+          have hXr : ∀ x ∈ runLog H nr (H [0]) fuel es' vs', x ∈ X := by
+            intro x hx; apply hX; simp [runLog, hp0, hlev, hx]
           have hout := level_out hlen hZ nr _ _ _ _ hlev hes hvs
+          have hout' := level_out' hlen hZ nr _ _ _ _ hlev hes hvs
           have hvs' := level_vs nr (H [0]) _ _ _ _ hlev hvs
           have hes' : ∀ e ∈ es', e.2.length = 32 := by
             intro e he
             obtain ⟨x, hx, _⟩ := hout.1 e he
             rw [hx]; exact hlen _
-          obtain ⟨t, ht, hgood⟩ := ih es' vs' hrun hes' hvs'
+          obtain ⟨t, ht, hgood⟩ := ih es' vs' hrun hXr hes' hvs'
           have hne : es' ≠ [] := hout.2 (by simp)
           have hpos : hTop - t ≠ 0 := by
             intro h0
             obtain ⟨e, he⟩ := List.exists_mem_of_ne_nil es' hne
-            obtain ⟨x, hx, hx64⟩ := hout.1 e he
-            have := (hgood e he).1
-            rw [h0, hx] at this
-            exact node_ne_leaf' h2 hleaf _ hx64 (by simpa [sub] using this)
+            obtain ⟨x, hxl, hx, hx64⟩ := hout' e he
+            obtain ⟨hv, hin⟩ := hgood e he
+            rw [h0] at hv hin
+            rw [hx] at hv
+            exact node_ne_leaf' h2 hleaf e.1 hin (hXl x hxl) hx64 (by simpa [sub] using hv)
           obtain ⟨h1, hh1⟩ : ∃ h1, hTop - t = h1 + 1 := ⟨hTop - t - 1, by omega⟩
           refine ⟨t + 1, by omega, ?_⟩
           have hg' : ∀ e ∈ es', GoodAt H leaves off hTop (h1 + 1) e := by
             intro e he; rw [← hh1]; exact hgood e he
-          have := level_sound' h2 hlen nr h1 _ _ _ _ hlev hes hvs hg'
+          have := level_sound' h2 hlen nr h1 _ _ _ _ hlev hXl hes hvs hg'
           have hh2 : hTop - (t + 1) = h1 := by omega
           rw [hh2]; exact this
 
 /-- `StmBatch.batch_sound` with the relativised hash hypothesis -/
-theorem batch_sound' {leaves : List Bytes} {off hTop : Nat}
-    (h2 : NoSecondPreimage H (TreeInput H leaves off hTop)) (hlen : ∀ x, (H x).length = 32)
+theorem batch_sound' (h2 : NoCollisionBetween H (treeLog H leaves off hTop) X) (hlen : ∀ x, (H x).length = 32)
     (nr : Nat) (hleaf : ∀ l ∈ leaves, l.length = 104)
     (claims : List (Nat × Bytes)) (hclaim : ∀ c ∈ claims, c.2.length = 104)
     (vs : List Bytes) (hvs : ∀ v ∈ vs, v.length = 32) (fuel : Nat)
+    (hXc : ∀ c ∈ claims, c.2 ∈ X)
+    (hXr : ∀ x ∈ runLog H nr (H [0]) fuel (claims.map fun c => (c.1 + off, H c.2)) vs, x ∈ X)
     (hrun : run H nr (H [0]) fuel (claims.map fun c => (c.1 + off, H c.2)) vs
       = some [(0, sub H leaves (H [0]) off hTop 0)]) :
     ∀ c ∈ claims, leaves[c.1]? = some c.2 := by
@@ -410,7 +572,7 @@ theorem batch_sound' {leaves : List Bytes} {off hTop : Nat}
     intro e he
     obtain ⟨c, _, rfl⟩ := List.mem_map.mp he
     exact hlen _
-  obtain ⟨t, ht, hgood⟩ := run_sound' h2 hlen nr hleaf fuel _ vs hrun hes hvs
+  obtain ⟨t, ht, hgood⟩ := run_sound' h2 hlen nr hleaf fuel _ vs hrun hXr hes hvs
   intro c hc
   obtain ⟨hg, hin⟩ := hgood (c.1 + off, H c.2) (List.mem_map.mpr ⟨c, hc, rfl⟩)
   simp only at hg hin
@@ -418,67 +580,74 @@ theorem batch_sound' {leaves : List Bytes} {off hTop : Nat}
   | succ h1 =>
     rw [hht] at hg hin
     simp only [sub] at hg
-    have := h2 _ (Or.inr (Or.inr ⟨h1, _, hin, rfl⟩)) c.2 hg
+    have := h2 _ (mem_node hin) c.2 (hXc c hc) hg
     have h104 := hclaim c hc
     rw [this] at h104
     simp [sub_len hlen (hlen [0])] at h104
   | zero =>
-    rw [hht] at hg
+    rw [hht] at hg hin
     simp only [sub, leafVal, Nat.add_sub_cancel] at hg
     split at hg
     · rename_i l hl
-      rw [hl, h2 l (Or.inr (Or.inl (List.mem_of_getElem? hl))) c.2 hg]
-    · have := h2 [0] (Or.inl rfl) c.2 hg
+      have hl' : leaves[c.1 + off - off]? = some l := by simpa using hl
+      rw [hl, h2 l (mem_leaf hin hl') c.2 (hXc c hc) hg]
+    · have := h2 [0] mem_zero c.2 (hXc c hc) hg
       have h104 := hclaim c hc
       rw [this] at h104
       simp at h104
 
-/-- the inputs of the tree `MerkleTree::new(leaves)` -/
-abbrev TreeInputs (H : Bytes → Bytes) (leaves : List Bytes) : Bytes → Prop :=
-  TreeInput H leaves (nextPow2 leaves.length - 1) (height leaves.length)
+end verifier
+
+theorem not_noCollision {U X : List Bytes} (h : ¬ NoCollisionBetween H U X) :
+    ∃ y ∈ U, ∃ x ∈ X, x ≠ y ∧ H x = H y := by
+  unfold NoCollisionBetween at h
+  obtain ⟨y, hy⟩ := Classical.not_forall.mp h
+  obtain ⟨hU, hy⟩ := Classical.not_imp.mp hy
+  obtain ⟨x, hx⟩ := Classical.not_forall.mp hy
+  obtain ⟨hX, hx⟩ := Classical.not_imp.mp hx
+  obtain ⟨he, hne⟩ := Classical.not_imp.mp hx
+  exact ⟨y, hU, x, hX, hne, he⟩
 
 /-- **repaired `C09_stm_sound`**: an accepted batch proof vouches only for committed leaves at the stated
-positions — or the proof run produced a SECOND PRE-IMAGE of one of the finitely many byte strings hashed when
-the committed tree was built, or a path value does not have 32 bytes. Unlike `Collision H`, the second
-disjunct does not follow from `hlen` (`sat_relativised`). -/
-theorem C09_stm_sound_relativised (H : Bytes → Bytes) (hlen : ∀ x, (H x).length = 32)
+positions — or the proof hands out two DIFFERENT byte strings with the same hash, `y` out of the strings
+hashed when the committed tree was built (`treeLogOf`) and `x` out of the strings the verifier hashed
+(`verifierLog`: the claimed leaves and the concatenations of the level loop), or a path value does not have 32
+bytes. Unlike `Collision H`, the second disjunct does not follow from `hlen` (`sat_witness`). -/
+theorem C09_stm_sound_witness (H : Bytes → Bytes) (hlen : ∀ x, (H x).length = 32)
     (leaves : List Bytes) (hleaf : ∀ l ∈ leaves, l.length = 104)
     (claims : List Bytes) (hclaim : ∀ c ∈ claims, c.length = 104)
     (values : List Bytes) (indices : List Nat)
     (h : verifyBatch H (treeRoot H leaves) leaves.length claims values indices = .ok) :
     (∀ p ∈ indices.zip claims, leaves[p.1]? = some p.2) ∨
-    (∃ y, TreeInputs H leaves y ∧ ∃ x, x ≠ y ∧ H x = H y) ∨ (∃ v ∈ values, v.length ≠ 32) := by
+    (∃ y ∈ treeLogOf H leaves, ∃ x ∈ verifierLog H leaves.length claims values indices, x ≠ y ∧ H x = H y) ∨
+    (∃ v ∈ values, v.length ≠ 32) := by
   by_cases hv : ∀ v ∈ values, v.length = 32
-  · by_cases h2 : NoSecondPreimage H (TreeInputs H leaves)
+  · by_cases h2 : NoCollisionBetween H (treeLogOf H leaves) (verifierLog H leaves.length claims values indices)
     · left
       obtain ⟨_, hrun⟩ := verifyBatch_ok_run H _ _ _ _ _ h
       have hc : ∀ c ∈ indices.zip claims, c.2.length = 104 := fun c hc => hclaim c.2 (List.of_mem_zip hc).2
-      exact batch_sound' h2 hlen (leaves.length + nextPow2 leaves.length - 1) hleaf
-        (indices.zip claims) hc values hv 65 hrun
-    · right; left
-      unfold NoSecondPreimage at h2
-      obtain ⟨y, hy⟩ := Classical.not_forall.mp h2
-      obtain ⟨hU, hy⟩ := Classical.not_imp.mp hy
-      obtain ⟨x, hx⟩ := Classical.not_forall.mp hy
-      obtain ⟨he, hne⟩ := Classical.not_imp.mp hx
-      exact ⟨y, hU, x, hne, he⟩
+      refine batch_sound' h2 hlen (leaves.length + nextPow2 leaves.length - 1) hleaf
+        (indices.zip claims) hc values hv 65 ?_ ?_ hrun
+      · intro c hc; unfold verifierLog; exact List.mem_append_left _ (List.mem_map.mpr ⟨c, hc, rfl⟩)
+      · intro x hx; unfold verifierLog; exact List.mem_append_right _ hx
+    · exact Or.inr (Or.inl (not_noCollision h2))
   · right; right
     obtain ⟨v, hv'⟩ := Classical.not_forall.mp hv
     obtain ⟨hvm, hl⟩ := Classical.not_imp.mp hv'
     exact ⟨v, hvm, hl⟩
 
-/-! ### root injectivity (C06 distinctness), relativised -/
+/-! ### root injectivity (`C09_stm_root_injective`), with the witness pair -/
 
 theorem sub_inj' (hlen : ∀ x, (H x).length = 32)
     (L L' : List Bytes) (hL : ∀ l ∈ L, l.length = 104) (hL' : ∀ l ∈ L', l.length = 104)
-    (off hTop : Nat) (h2 : NoSecondPreimage H (TreeInput H L' off hTop)) :
+    (off hTop : Nat) (h2 : NoCollisionBetween H (treeLog H L' off hTop) (treeLog H L off hTop)) :
     ∀ (h p : Nat), InTree hTop h p → sub H L (H [0]) off h p = sub H L' (H [0]) off h p →
       ∀ k, p * 2 ^ h + (2 ^ h - 1) - off ≤ k → k ≤ p * 2 ^ h + (2 ^ h - 1) + (2 ^ h - 1) - off →
         off ≤ p * 2 ^ h + (2 ^ h - 1) → L[k]? = L'[k]? := by
   intro h
   induction h with
   | zero =>
-    intro p _ heq k hk1 hk2 hoff
+    intro p hin heq k hk1 hk2 hoff
     simp only [Nat.pow_zero, Nat.mul_one, Nat.sub_self, Nat.add_zero] at hk1 hk2 hoff
     have hk : k = p - off := by omega
     subst hk
@@ -488,24 +657,24 @@ theorem sub_inj' (hlen : ∀ x, (H x).length = 32)
       cases hb : L'[p - off]? with
       | some b =>
         rw [ha, hb] at heq; simp only at heq
-        rw [h2 b (Or.inr (Or.inl (List.mem_of_getElem? hb))) a heq]
+        rw [h2 b (mem_leaf hin hb) a (mem_leaf hin ha) heq]
       | none =>
         rw [ha, hb] at heq; simp only at heq
-        have := h2 [0] (Or.inl rfl) a heq
+        have := h2 [0] mem_zero a (mem_leaf hin ha) heq
         have h104 := hL a (List.mem_of_getElem? ha)
         rw [this] at h104; simp at h104
     | none =>
       cases hb : L'[p - off]? with
       | some b =>
         rw [ha, hb] at heq; simp only at heq
-        have := h2 b (Or.inr (Or.inl (List.mem_of_getElem? hb))) [0] heq
+        have := h2 b (mem_leaf hin hb) [0] mem_zero heq
         have h104 := hL' b (List.mem_of_getElem? hb)
         rw [← this] at h104; simp at h104
       | none => rfl
   | succ h ih =>
     intro p hin heq k hk1 hk2 hoff
     simp only [sub] at heq
-    have hcat := h2 _ (Or.inr (Or.inr ⟨h, p, hin, rfl⟩)) _ heq
+    have hcat := h2 _ (mem_node hin) _ (mem_node hin) heq
     have hl : (sub H L (H [0]) off h (2 * p + 1)).length = (sub H L' (H [0]) off h (2 * p + 1)).length := by
       rw [sub_len hlen (hlen [0]), sub_len hlen (hlen [0])]
     obtain ⟨h1, h2'⟩ := List.append_inj hcat hl
@@ -539,28 +708,22 @@ theorem sub_inj' (hlen : ∀ x, (H x).length = 32)
           rw [Nat.add_mul, Nat.mul_comm 2 p, Nat.mul_assoc]
         omega
 
-/-- **repaired `C09_stm_root_injective`** (C06 distinctness): two leaf lists of the same length with the
-same root are equal, or the first tree's computation contains a second pre-image of an input of the second
-tree's computation (`x` is `[0]`, a leaf of `L` or a node pre-image of `L`'s tree — see the proof) -/
-theorem C09_stm_root_injective_relativised (H : Bytes → Bytes) (hlen : ∀ x, (H x).length = 32)
+/-- **repaired `C09_stm_root_injective`**: two leaf lists of the same length with the same root are equal, or
+two different strings — `x` hashed for the tree over `L`, `y` hashed for the tree over `L'` — have the same
+hash -/
+theorem C09_stm_root_injective_witness (H : Bytes → Bytes) (hlen : ∀ x, (H x).length = 32)
     (L L' : List Bytes) (hL : ∀ l ∈ L, l.length = 104) (hL' : ∀ l ∈ L', l.length = 104)
     (hn : L.length = L'.length) (h : Nat) (hcap : L.length ≤ 2 ^ h)
     (hroot : sub H L (H [0]) (2 ^ h - 1) h 0 = sub H L' (H [0]) (2 ^ h - 1) h 0) :
-    L = L' ∨ ∃ y, TreeInput H L' (2 ^ h - 1) h y ∧ ∃ x, x ≠ y ∧ H x = H y := by
-  by_cases h2 : NoSecondPreimage H (TreeInput H L' (2 ^ h - 1) h)
+    L = L' ∨ ∃ y ∈ treeLog H L' (2 ^ h - 1) h, ∃ x ∈ treeLog H L (2 ^ h - 1) h, x ≠ y ∧ H x = H y := by
+  by_cases h2 : NoCollisionBetween H (treeLog H L' (2 ^ h - 1) h) (treeLog H L (2 ^ h - 1) h)
   · left
     apply List.ext_getElem?
     intro k
     by_cases hk : k < 2 ^ h
     · exact sub_inj' hlen L L' hL hL' (2 ^ h - 1) h h2 h 0 InTree.root hroot k (by omega) (by omega) (by omega)
     · rw [List.getElem?_eq_none (by omega), List.getElem?_eq_none (by omega)]
-  · right
-    unfold NoSecondPreimage at h2
-    obtain ⟨y, hy⟩ := Classical.not_forall.mp h2
-    obtain ⟨hU, hy⟩ := Classical.not_imp.mp hy
-    obtain ⟨x, hx⟩ := Classical.not_forall.mp hy
-    obtain ⟨he, hne⟩ := Classical.not_imp.mp hx
-    exact ⟨y, hU, x, hne, he⟩
+  · exact Or.inr (not_noCollision h2)
 
 /-! ### a world that satisfies every hypothesis of the repaired theorems -/
 
@@ -598,73 +761,74 @@ theorem tH_cases (x : Bytes) :
 theorem c_ne : c 0 ≠ c 1 ∧ c 0 ≠ c 2 ∧ c 0 ≠ c 3 ∧ c 0 ≠ c 4 ∧ c 1 ≠ c 2 ∧ c 1 ≠ c 3 ∧ c 1 ≠ c 4 ∧
     c 2 ≠ c 3 ∧ c 2 ≠ c 4 ∧ c 3 ≠ c 4 := by decide +kernel
 
-theorem tH_unique {x y : Bytes} {v : Bytes} (hy : tH y = v) (hv : v ≠ c 0)
-    (hy' : y = [0] ∨ y = l0 ∨ y = l1 ∨ y = c 2 ++ c 3) (h : tH x = tH y) : x = y := by
+/-- no second pre-image (among ALL byte strings) of the four tree inputs -/
+theorem tH_unique {x y : Bytes} (hy' : y = [0] ∨ y = l0 ∨ y = l1 ∨ y = c 2 ++ c 3) (h : tH x = tH y) : x = y := by
   obtain ⟨n01, n02, n03, n04, n12, n13, n14, n23, n24, n34⟩ := c_ne
-  rw [hy] at h
-  rcases tH_cases x with ⟨rfl, e⟩ | ⟨rfl, e⟩ | ⟨rfl, e⟩ | ⟨rfl, e⟩ | e <;>
-    rcases hy' with rfl | rfl | rfl | rfl
-  all_goals first
-    | rfl
-    | (exfalso
-       first
-         | (rw [tH_zero] at hy)
-         | (rw [tH_l0] at hy)
-         | (rw [tH_l1] at hy)
-         | (rw [tH_node] at hy)
-       rw [e] at h
-       subst hy
-       first
-         | exact hv h.symm
-         | exact n12 h | exact n12 h.symm | exact n13 h | exact n13 h.symm | exact n14 h | exact n14 h.symm
-         | exact n23 h | exact n23 h.symm | exact n24 h | exact n24 h.symm | exact n34 h | exact n34 h.symm)
+  have key : ∀ v, tH y = v → tH x = v → v ≠ c 0 → x = y := by
+    intro v hyv hxv hv0
+    rcases tH_cases x with ⟨ex, e⟩ | ⟨ex, e⟩ | ⟨ex, e⟩ | ⟨ex, e⟩ | e
+    all_goals rcases hy' with ey | ey | ey | ey
+    all_goals first
+      | (rw [ex, ey]; done)
+      | (exfalso
+         rw [e] at hxv
+         first
+           | (rw [ey, tH_zero] at hyv)
+           | (rw [ey, tH_l0] at hyv)
+           | (rw [ey, tH_l1] at hyv)
+           | (rw [ey, tH_node] at hyv)
+         rw [← hxv] at hyv
+         first
+           | exact hv0 hxv.symm
+           | exact n12 hyv | exact n12 hyv.symm | exact n13 hyv | exact n13 hyv.symm
+           | exact n14 hyv | exact n14 hyv.symm | exact n23 hyv | exact n23 hyv.symm
+           | exact n24 hyv | exact n24 hyv.symm | exact n34 hyv | exact n34 hyv.symm)
+  rcases hy' with ey | ey | ey | ey
+  · exact key (c 1) (by rw [ey]; exact tH_zero) (by rw [h, ey]; exact tH_zero) (fun e => n01 e.symm)
+  · exact key (c 2) (by rw [ey]; exact tH_l0) (by rw [h, ey]; exact tH_l0) (fun e => n02 e.symm)
+  · exact key (c 3) (by rw [ey]; exact tH_l1) (by rw [h, ey]; exact tH_l1) (fun e => n03 e.symm)
+  · exact key (c 4) (by rw [ey]; exact tH_node) (by rw [h, ey]; exact tH_node) (fun e => n04 e.symm)
 
-/-- the inputs of the tree over `[l0, l1]` (height 1, offset 1) are exactly the four table entries -/
-theorem treeInputs_tH (y : Bytes) (h : TreeInputs tH [l0, l1] y) : y = [0] ∨ y = l0 ∨ y = l1 ∨ y = c 2 ++ c 3 := by
-  rcases h with h | h | ⟨h, p, hin, rfl⟩
-  · exact Or.inl h
-  · simp only [List.mem_cons, List.mem_nil_iff, or_false] at h
-    rcases h with h | h
-    · exact Or.inr (Or.inl h)
-    · exact Or.inr (Or.inr (Or.inl h))
-  · have hh : height ([l0, l1] : List Bytes).length = 1 := by decide
-    rw [hh] at hin
-    obtain ⟨hb, hp⟩ := hin.bound
-    have h0 : h = 0 := by omega
-    subst h0
-    have hp0 := hp rfl
-    subst hp0
-    right; right; right
-    decide +kernel
+/-- the log of the tree over `[l0, l1]` (height 1, offset 1), computed -/
+theorem treeLog_tH : treeLogOf tH [l0, l1] = [[0], c 2 ++ c 3, l0, l1] := by decide +kernel
 
-/-- **the repaired hypotheses are satisfiable and the collision disjuncts are not automatic**: a hash with
-32-byte outputs without second pre-images on the inputs of the committed tree, 104-byte leaves and claim, an
-ACCEPTED batch proof with one 32-byte path value; the second and third disjunct of
-`C09_stm_sound_relativised` are false here, so acceptance alone yields "the claim is the committed leaf". -/
-theorem sat_relativised :
-    (∀ x, (tH x).length = 32) ∧ NoSecondPreimage tH (TreeInputs tH [l0, l1]) ∧
-    (∀ l ∈ [l0, l1], l.length = 104) ∧ (∀ cl ∈ [l1], cl.length = 104) ∧
+/-- the log of the accepted verification below: the claimed leaf and one concatenation -/
+theorem verifierLog_tH : verifierLog tH 2 [l1] [c 2] [1] = [l1, c 2 ++ c 3] := by decide +kernel
+
+/-- **the repaired hypotheses are satisfiable and the collision disjunct is not automatic**: a hash with
+32-byte outputs, 104-byte leaves and claim, an ACCEPTED batch proof with one 32-byte path value, and NO
+collision between the tree's log and the verifier's log; the second and third disjunct of
+`C09_stm_sound_witness` are false here, so acceptance alone yields "the claim is the committed leaf". -/
+theorem sat_witness :
+    (∀ x, (tH x).length = 32) ∧ (∀ l ∈ [l0, l1], l.length = 104) ∧ (∀ cl ∈ [l1], cl.length = 104) ∧
     verifyBatch tH (treeRoot tH [l0, l1]) [l0, l1].length [l1] [c 2] [1] = .ok ∧
-    (∀ v ∈ [c 2], v.length = 32) ∧
-    ¬ (∃ y, TreeInputs tH [l0, l1] y ∧ ∃ x, x ≠ y ∧ tH x = tH y) ∧ ¬ (∃ v ∈ [c 2], v.length ≠ 32) := by
-  have hns : NoSecondPreimage tH (TreeInputs tH [l0, l1]) := by
-    intro y hy x hxy
-    have hy' := treeInputs_tH y hy
-    obtain ⟨n01, n02, n03, n04, _⟩ := c_ne
-    rcases hy' with rfl | rfl | rfl | rfl
-    · exact tH_unique tH_zero (fun e => n01 e.symm) (Or.inl rfl) hxy
-    · exact tH_unique tH_l0 (fun e => n02 e.symm) (Or.inr (Or.inl rfl)) hxy
-    · exact tH_unique tH_l1 (fun e => n03 e.symm) (Or.inr (Or.inr (Or.inl rfl))) hxy
-    · exact tH_unique tH_node (fun e => n04 e.symm) (Or.inr (Or.inr (Or.inr rfl))) hxy
-  refine ⟨tH_len, hns, by decide +kernel, by decide +kernel, by decide +kernel, by decide +kernel, ?_, by decide +kernel⟩
-  rintro ⟨y, hy, x, hne, he⟩
-  exact hne (hns y hy x he)
+    NoCollisionBetween tH (treeLogOf tH [l0, l1]) (verifierLog tH [l0, l1].length [l1] [c 2] [1]) ∧
+    ¬ (∃ y ∈ treeLogOf tH [l0, l1], ∃ x ∈ verifierLog tH [l0, l1].length [l1] [c 2] [1], x ≠ y ∧ tH x = tH y) ∧
+    ¬ (∃ v ∈ [c 2], v.length ≠ 32) := by
+  have hns : ∀ X, NoCollisionBetween tH (treeLogOf tH [l0, l1]) X := by
+    intro X y hy x _ hxy
+    rw [treeLog_tH] at hy
+    simp only [List.mem_cons, List.mem_nil_iff, or_false] at hy
+    exact tH_unique (by tauto) hxy
+  refine ⟨tH_len, by decide +kernel, by decide +kernel, by decide +kernel, hns _, ?_, by decide +kernel⟩
+  rintro ⟨y, hy, x, hx, hne, he⟩
+  exact hne (hns _ y hy x hx he)
 
 /-- … whereas the ORIGINAL second disjunct holds for this very `tH` (as for every hash) -/
 example : Collision tH := collision_of_fixed_length tH 32 tH_len
 
 /-- the verifier is not "accept everything" on this world: a foreign leaf is rejected -/
 example : verifyBatch tH (treeRoot tH [l0, l1]) 2 [List.replicate 104 7] [c 2] [1] = .err := by decide +kernel
+
+/-- `C09_stm_root_injective_witness`: hypotheses on the same world (`h = 1`), interesting case `L = L'` forced -/
+example : (∀ l ∈ [l0, l1], l.length = 104) ∧ [l0, l1].length ≤ 2 ^ 1 ∧
+    NoCollisionBetween tH (treeLog tH [l0, l1] (2 ^ 1 - 1) 1) (treeLog tH [l0, l1] (2 ^ 1 - 1) 1) := by
+  refine ⟨by decide +kernel, by decide, ?_⟩
+  intro y hy x _ hxy
+  have : treeLog tH [l0, l1] (2 ^ 1 - 1) 1 = [[0], c 2 ++ c 3, l0, l1] := by decide +kernel
+  rw [this] at hy
+  simp only [List.mem_cons, List.mem_nil_iff, or_false] at hy
+  exact tH_unique (by tauto) hxy
 
 /-! ## remaining C09 theorems: hypotheses that are plain (in)equalities -/
 
